@@ -23,7 +23,7 @@ namespace Vector {
 				if (tmp == ObjectSignature) {
 					signature = tmp;
 				} else {
-					if (is.eof()) {
+					if (is.eof() || !is.good() || (is.gcount() < static_cast<std::streamsize>(sizeof(tmp)))) {
 						throw Exception("ObjectHeaderBase::read(): End of File.");
 					}
 
